@@ -26,7 +26,6 @@ import (
 	ihttp "github.com/transparency-dev/witness/internal/http"
 	"github.com/transparency-dev/witness/internal/persistence/inmemory"
 	"github.com/transparency-dev/witness/internal/witness"
-	"github.com/transparency-dev/witness/omniwitness"
 	"github.com/transparency-dev/witness/verifharness/internal/world"
 	"golang.org/x/net/http2"
 	"golang.org/x/time/rate"
@@ -128,7 +127,7 @@ func bastionE2EChild(args []string) error {
 	ctx, cancel := context.WithTimeout(context.Background(), 10*time.Minute)
 	defer cancel()
 	ferr := bastion.FeedBastion(ctx, bastion.Config{Addr: *addr, Logs: logs, BastionKey: priv, WitnessVerifier: witV,
-		Limits: bastion.RequestLimits{TotalPerSecond: rate.Limit(100000)}}, omniwitness.VerifWitnessAdapter(wit))
+		Limits: bastion.RequestLimits{TotalPerSecond: rate.Limit(100000)}}, witnessAdapterOf(wit))
 	say("FEEDBASTION %v", ferr)
 	return nil
 }
